@@ -1080,7 +1080,13 @@ class AQUA:
             return q_prime.to_array()
         lx, ly, _ = q_prime.to_DCM().T @ (mag/m_norm)       # World frame magnetic vector (eq. 54)
         Gamma = lx**2 + ly**2                               # (eq. 28)
-        q_mag = np.array([np.sqrt(Gamma+lx*np.sqrt(Gamma))/np.sqrt(2*Gamma), 0.0, 0.0, ly/np.sqrt(2*(Gamma+lx*np.sqrt(Gamma)))])    # (eq. 58)
+        if lx >= 0:
+            q_mag = np.array([np.sqrt(Gamma+lx*np.sqrt(Gamma))/np.sqrt(2*Gamma), 0.0, 0.0, ly/np.sqrt(2*(Gamma+lx*np.sqrt(Gamma)))])    # (eq. 58)
+        else:
+            # Same rotation written without the singularity at ly = 0 (cf. eq. 35), with non-negative scalar part
+            q_mag = np.array([ly/np.sqrt(2*(Gamma-lx*np.sqrt(Gamma))), 0.0, 0.0, np.sqrt(Gamma-lx*np.sqrt(Gamma))/np.sqrt(2*Gamma)])
+            if q_mag[0] < 0:
+                q_mag *= -1.0
         q_mag = slerp_I(q_mag, self.beta, self.threshold)
         # Generalized Quaternion
         q = q_prime.product(q_mag)                          # (eq. 59)
